@@ -79,6 +79,31 @@ pub proof fn lemma_c04(rsv: nat, a: nat, s: nat)
     assert((d * x + d) * s == x * d * s + d * s) by(nonlinear_arith);
     assert(rsv * (a * d) == rsv * a * d) by(nonlinear_arith);
 }
+// C20: entitlement r*a/S >= r/10^18 + 2, cross-multiplied by D*S
+pub open spec fn c20_entitled(rsv: nat, a: nat, s: nat) -> bool { rsv * a * dd() >= (rsv + 2 * dd()) * s }
+pub proof fn lemma_c20_payable(rsv: nat, a: nat, s: nat)
+    requires s > 0, c20_entitled(rsv, a, s)
+    ensures wd_refund(rsv, a, s) >= 1
+{
+    lemma_c04(rsv, a, s);
+    let x = wd_refund(rsv, a, s); let d = dd();
+    assert((rsv + 2 * d) * s == rsv * s + 2 * d * s) by(nonlinear_arith);
+    if x == 0 { assert(x * d * s == 0) by(nonlinear_arith) requires x == 0; assert(d * s > 0) by(nonlinear_arith) requires d > 0, s > 0; assert(2 * d * s == d * s + d * s) by(nonlinear_arith); }
+}
+// a <= S ==> the 128-bit intermediate results of the refund computation fit
+pub proof fn lemma_refund_fits(rsv: nat, a: nat, s: nat)
+    requires s > 0, a <= s, rsv < p128()
+    ensures wd_ratio(a, s) <= dd(), wd_refund(rsv, a, s) <= rsv, rsv * wd_ratio(a, s) / dd() < p128(), a * dd() / s < p128()
+{
+    let d = dd(); let q = wd_ratio(a, s);
+    lemma_fundamental_div_mod((a * d) as int, s as int); lemma_mod_bound((a * d) as int, s as int);
+    assert(a * d <= s * d) by(nonlinear_arith) requires a <= s;
+    assert(q <= d) by(nonlinear_arith) requires s * q <= a * d, a * d <= s * d, s > 0;
+    lemma_fundamental_div_mod((rsv * q) as int, d as int); lemma_mod_bound((rsv * q) as int, d as int);
+    assert(rsv * q <= rsv * d) by(nonlinear_arith) requires q <= d;
+    let x = rsv * q / d;
+    assert(x <= rsv) by(nonlinear_arith) requires d * x <= rsv * q, rsv * q <= rsv * d, d > 0;
+}
 pub open spec fn burn_msg(lp: Seq<char>, amount: Uint128, m: CosmosMsg) -> bool {
     m matches CosmosMsg::Wasm(WasmMsg::Execute { contract_addr, msg, funds }) && contract_addr@ == lp && funds@.len() == 0
         && msg == bin_of(Cw20ExecuteMsg::Burn { amount })
@@ -96,17 +121,47 @@ pub open spec fn withdraw_pays(w: World, pair: Seq<char>, pi: PairInfoRaw, i0: A
 }
 
 //%fn contracts/halo-pair/src/contract.rs | - | withdraw_liquidity
+//%if A
+//%%rewrite #1 /pools\s*\.iter\(\)\s*\.map\(\|a\| ((?s:.*?))\)\s*\.collect\(\)/ => vmap2(&pools, |a: &Asset| -> (o: Asset) requires total_share.0 != 0 && share_ratio.0 as nat == wd_ratio(amount.0 as nat, total_share.0 as nat) && amount.0 <= total_share.0 ensures /*[C20,C04 withdraw.refund-closure.no-abort]*/ o.info == a.info && o.amount.0 as nat == wd_refund(a.amount.0 as nat, amount.0 as nat, total_share.0 as nat) { proof { lemma_refund_fits(a.amount.0 as nat, amount.0 as nat, total_share.0 as nat); } \1 }) ## R4 (mode A): same helper; the closure's precondition is what the caller establishes, its body must not abort
+//%else
 //%%rewrite #1 /pools\s*\.iter\(\)\s*\.map\(\|a\| ((?s:.*?))\)\s*\.collect\(\)/ => vmap2(&pools, |a: &Asset| -> (o: Asset) ensures /*[C04,C03 withdraw.refund-closure]*/ o.info == a.info && total_share.0 != 0 && wd_refund(a.amount.0 as nat, amount.0 as nat, total_share.0 as nat) < p128() && o.amount.0 as nat == wd_refund(a.amount.0 as nat, amount.0 as nat, total_share.0 as nat) { \1 }) ## R4: iter().map().collect() over [Asset;2] -> verified helper vmap2; the closure is annotated with the refund formula of C04 and verified against its real body
+//%endif
 //%%sig
+//%if A
+    // C20: the LP supply is positive, the burned amount does not exceed it, and the pro-rata entitlement r_i*a/S is at least r_i/10^18 + 2 for both assets
+    requires
+        old(deps.storage).pair_info is Some,
+        ({ let pi = old(deps.storage).pair_info->Some_0; let w = deps.querier.world(); let s = w.tok_supply(human_of(pi.liquidity_token.0@)); let a = amount.0 as nat;
+           0 < a <= s && forall|i0: AssetInfo, i1: AssetInfo| #![trigger normal_exact(i0, pi.asset_infos[0]), normal_exact(i1, pi.asset_infos[1])] normal_exact(i0, pi.asset_infos[0]) && normal_exact(i1, pi.asset_infos[1])
+              ==> c20_entitled(balance_of(w, i0, env.contract.address.0@), a, s) && c20_entitled(balance_of(w, i1, env.contract.address.0@), a, s) }),
+//%endif
     ensures
+//%if A
+        /*[C20 withdraw.always-succeeds]*/ r is Ok,
+        /*[C20 withdraw.payable-amounts]*/ r is Ok ==> ({ let pi = old(deps.storage).pair_info->Some_0; let w = deps.querier.world(); let s = w.tok_supply(human_of(pi.liquidity_token.0@)); let a = amount.0 as nat;
+            forall|i0: AssetInfo, i1: AssetInfo| #![trigger normal_exact(i0, pi.asset_infos[0]), normal_exact(i1, pi.asset_infos[1])] normal_exact(i0, pi.asset_infos[0]) && normal_exact(i1, pi.asset_infos[1])
+              ==> wd_refund(balance_of(w, i0, env.contract.address.0@), a, s) >= 1 && wd_refund(balance_of(w, i1, env.contract.address.0@), a, s) >= 1 }),
+//%endif
         /*[C04,C03,C07 withdraw.pays]*/ r is Ok ==> old(deps.storage).pair_info is Some && ({
             let pi = old(deps.storage).pair_info->Some_0;
             exists|i0: AssetInfo, i1: AssetInfo, lp: Seq<char>| #![trigger raw_of(i0, pi.asset_infos[0]), raw_of(i1, pi.asset_infos[1]), canon_of(lp)]
                 raw_of(i0, pi.asset_infos[0]) && raw_of(i1, pi.asset_infos[1])
                 && withdraw_pays(deps.querier.world(), env.contract.address.0@, pi, i0, i1, lp, sender.0@, amount, r->Ok_0.msgs()) }),
         /*[C14,C07 withdraw.no-write]*/ *final(deps.storage) == *old(deps.storage),
+//%if A
+//%%insert before #1 /let share_ratio: Decimal = Decimal::from_ratio\(amount, total_share\);/
+    proof {
+        assert(liquidity_addr.0@ == human_of(pair_info.liquidity_token.0@));
+        lemma_refund_fits(pools[0].amount.0 as nat, amount.0 as nat, total_share.0 as nat);
+        lemma_refund_fits(pools[1].amount.0 as nat, amount.0 as nat, total_share.0 as nat);
+    }
+//%endif
 //%%insert before #1 /^    Ok\(Response::new\(\)$/
     proof {
+//%if A
+        lemma_c20_payable(balance_of(deps.querier.world(), pools[0].info, env.contract.address.0@), amount.0 as nat, total_share.0 as nat);
+        lemma_c20_payable(balance_of(deps.querier.world(), pools[1].info, env.contract.address.0@), amount.0 as nat, total_share.0 as nat);
+//%endif
         let w = deps.querier.world(); let pair = env.contract.address.0@;
         lemma_c04(balance_of(w, pools[0].info, pair), amount.0 as nat, total_share.0 as nat);
         lemma_c04(balance_of(w, pools[1].info, pair), amount.0 as nat, total_share.0 as nat);
